@@ -1,7 +1,11 @@
 NOTES = ("Every check: regenerate PW/Gen from /repo, lake build of the property's theorems, #print axioms audit "
          "(propext, Classical.choice, Quot.sound only), forbidden-construct grep, correspondence of the Lean model "
          "(compiled driver, exact rationals + IEEE doubles) against the real polliwog on seeded structured inputs, "
-         "property oracle for failing-input search, known_findings.json. See DESIGN.md.")
+         "property oracle for failing-input search, known_findings.json. About one case in eight is also run as the second "
+         "call of a history pair (the caller's argument objects reused / updated in place / results edited, pwlib/share.py), "
+         "compared with the model's answer for that call alone. 'Source ties' are gen_* theorems equating literals read from "
+         "the Python source by the translator (operators, offsets, coefficients, refusal order, raised classes) with what the "
+         "model uses. See DESIGN.md.")
 
 NOT_APPLICABLE = {}
 
@@ -11,7 +15,7 @@ COMMON_NOTE = ("Trusted: Lean kernel; axioms propext/Classical.choice/Quot.sound
 
 CHECKS = {
     "C05": {
-        "text": "25 theorems over every linearly ordered field: signed_distance = (p-ref).n, sign/in-front/on-or-in-front "
+        "text": "25 theorems + 6 source ties over every linearly ordered field: signed_distance = (p-ref).n, sign/in-front/on-or-in-front "
                 "classification and the two partitions for every point list, projection/mirror/flip laws (general normal and unit normal), "
                 "equation/canonical point, module-level functions = methods, stacked = row-wise. The model is tied to the code by "
                 "executing it (exact rationals and doubles) against the real Plane methods and module functions on lattice and float streams.",
@@ -49,7 +53,7 @@ CHECKS = {
         "note": COMMON_NOTE + "np.bincount/cumsum/where modelled as list functions; idempotence needs every face selected (unselected faces behind the plane are kept by design and would be dropped by a full re-slice); dtypes are observed tags.",
     },
     "C06": {
-        "text": "41 theorems (all in full; the code-shaped runs/vsplit slicer = span-shaped slicer = declarative unique-run spec, cyclic for closed polylines via the roll+append reduction, for every vertex list over every ordered field; crossing computed from the same signed distances that decide the sides, as the repaired code does): result = entry ++ run ++ exit with on-plane neighbour or a crossing a+t(b-a), t in [0,1) resp. (0,1], on the plane; interior vertices are an infix of the input; no row behind the plane; result open; ValueError exactly when no unique run exists; the same kernel run on signs observed from the implementation refines the same spec. Tie: exhaustive enumeration of all front/on/behind sign sequences (len 0..6 quick, 0..9 thorough, open and closed) at exact rationals, float stream, and a near-plane stream (vertices within a few ulps of the plane, signs taken from the implementation) checking finiteness / on-segment / not-behind.",
+        "text": "41 theorems + 8 source ties (all in full; the code-shaped runs/vsplit slicer = span-shaped slicer = declarative unique-run spec, cyclic for closed polylines via the roll+append reduction, for every vertex list over every ordered field; crossing computed from the same signed distances that decide the sides, as the repaired code does): result = entry ++ run ++ exit with on-plane neighbour or a crossing a+t(b-a), t in [0,1) resp. (0,1], on the plane; interior vertices are an infix of the input; no row behind the plane; result open; ValueError exactly when no unique run exists; the same kernel run on signs observed from the implementation refines the same spec. Tie: exhaustive enumeration of all front/on/behind sign sequences (len 0..6 quick, 0..9 thorough, open and closed) at exact rationals, float stream, and a near-plane stream (vertices within a few ulps of the plane, signs taken from the implementation) checking finiteness / on-segment / not-behind.",
         "note": COMMON_NOTE + "np.roll/vsplit/sign modelled as list functions. In the near-plane stream the side of a vertex is whatever plane.sign() says (not determined by exact arithmetic).",
     },
     "C15": {
@@ -64,14 +68,14 @@ CHECKS = {
         "note": COMMON_NOTE + "np.argmin first-index rule modelled. Two distinct query points closer than the 1e-8 vertex-matching tolerance are outside the proved sub-path theorem (the code returns a one-vertex polyline) and not generated.",
     },
     "C09": {
-        "text": "37 theorems (all in full): edges/num_e/segments, flipped involution, rolled for any integer index incl. its edge mapping, sliced_at_indices (wrap / reversed -> ValueError), sectioned, join, "
+        "text": "37 theorems + 6 source ties (all in full): edges/num_e/segments, flipped involution, rolled for any integer index incl. its edge mapping, sliced_at_indices (wrap / reversed -> ValueError), sectioned, join, "
                 "NumPy-insert semantics with a declarative characterisation and the repaired index maps for every index list in -num_v..num_v with repeats (new[orig_idx[j]] = old[j], new[ins_idx[m]] = points[m]), "
                 "index_of_vertex lowest match, apex first arg-max, bounding_box, aligned_with, and the error classes. Tie: random operation programs (each op applied to earlier results) with the whole "
                 "program replayed in the model; immutability / read-only flags / no aliasing observed after every op; exhaustive insertion multisets n<=4,k<=3.",
         "note": COMMON_NOTE + "read-only flags, fresh-copy and aliasing observations are runtime tags, not theorems. Insertion indices below -num_v are outside the property and not generated.",
     },
     "C14": {
-        "text": "29 theorems (all in full, any ordered field, no unit-normal hypothesis): the coordinate-wise bounds test rejects iff the line parameter is outside [0,1] (axis-parallel equal coordinates included); "
+        "text": "29 theorems + 6 source ties (all in full, any ordered field, no unit-normal hypothesis): the coordinate-wise bounds test rejects iff the line parameter is outside [0,1] (axis-parallel equal coordinates included); "
                 "for endpoints strictly on opposite sides all four routines return a + (d_a/(d_a-d_b))(b-a), the unique point of the segment with signed distance 0, polyline entries one per crossing edge with ascending "
                 "edge indices; same side -> None / NaN row / no entry; exactly one endpoint on the plane -> that endpoint from the three segment routines; line form unique point / None for parallel; stacked = map. "
                 "Tie: exact lattice segments vs lattice planes (thorough: every ordered pair of {-2..2}^3 against 10 planes), float stream with margins.",
@@ -82,7 +86,7 @@ CHECKS = {
         "note": COMMON_NOTE + "json.dumps/loads and jsonschema are external (compared, not verified); np.around's float multiply/divide compared with tolerance, exact ties where the float product is inexact (e.g. 0.15 at 1 decimal) are dropped as undetermined.",
     },
     "C18": {
-        "text": "38 theorems (all in full): projection onto a line lands on the line, residual perpendicular, norm-closest and unique (algebraic form over any ordered field, vg.normalize form over R), "
+        "text": "38 theorems + 5 source ties + 2 defect witnesses (all in full): projection onto a line lands on the line, residual perpendicular, norm-closest and unique (algebraic form over any ordered field, vg.normalize form over R), "
                 "single / many-to-one / pairwise / one-to-many = row-wise; Line rejects almost-zero directions (model of vg.almost_zero); the faithful model of intersect_lines (|h|/|k|, sign of h.k, "
                 "shortcuts incl. the dead duplicate) equals the sqrt-free closed form p0 - ((h.k)/(k.k)) e, which is sound (a returned point lies on both lines) and complete (a unique common point is "
                 "returned for every incidence pattern of the four points; None for parallel/collinear/skew); 2-D: Cramer, None iff det = 0, sound and complete for any solver meeting the contract. "
@@ -99,12 +103,12 @@ CHECKS = {
         "note": COMMON_NOTE + "Tag names that collide with attribute/method names of the class (e.g. 'flip', '_points') are not generated (recorded assumption).",
     },
     "C08": {
-        "text": "45 theorems (all in full): segment lengths / total / length-weighted centroid (R); point_along_path: lies on the first segment with cum_i <= fL < cum_{i+1}, equals an independent arc-length walk for every f in [0,1], f=0 first vertex, f=1 last vertex (first again if closed), junction matching and a global Lipschitz bound (continuity); subdivide_segment = linspace, subdivide_segments without NaN on zero-length segments, both length preserving; subdivided_by_length: original vertices at the returned indices, inserted points a+(k/n)(b-a) with n = ceil(len/max) least with len/n <= max, unselected/short edges untouched, closedness and total length kept; with_segments_bisected: positions, index maps, and total length unchanged (midpoint split, repeated indices as zero-length segments, rotation invariance of the closed length). Tie: Float + exact rationals on rational-length chains, thresholds, masks, stacked fractions incl. 0 and 1.",
+        "text": "45 theorems + 7 source ties (all in full): segment lengths / total / length-weighted centroid (R); point_along_path: lies on the first segment with cum_i <= fL < cum_{i+1}, equals an independent arc-length walk for every f in [0,1], f=0 first vertex, f=1 last vertex (first again if closed), junction matching and a global Lipschitz bound (continuity); subdivide_segment = linspace, subdivide_segments without NaN on zero-length segments, both length preserving; subdivided_by_length: original vertices at the returned indices, inserted points a+(k/n)(b-a) with n = ceil(len/max) least with len/n <= max, unselected/short edges untouched, closedness and total length kept; with_segments_bisected: positions, index maps, and total length unchanged (midpoint split, repeated indices as zero-length segments, rotation invariance of the closed length). Tie: Float + exact rationals on rational-length chains, thresholds, masks, stacked fractions incl. 0 and 1.",
         "note": COMMON_NOTE + "np.cumsum/argmax/ceil/linspace/insert modelled as list functions.",
     },
     "C10": {
-        "text": "46 theorems: algebraic cores over any field (R^T R = R R^T = I, det = 1, axis fixed, right-handed turn, J_fwd J_inv = I3 via sympy certificates); over R for the actual model functions: forward is a proper rotation for every r with the stated axis/angle, identity at 0 and within eps under the theta<eps shortcut; inverse returns exactly theta*k for 0<theta<pi with sin theta >= 1e-5, both round trips, half-turns about every axis give +-pi*k mapping back to R, length <= pi in every branch; the 2.5e-5 snap bound proved in full (near 0: s+s^2; near pi: 2.5 sin theta, using the repaired symmetric-part sign tests, which are regenerated from the source and tied by gen_sign_tests); dispatch and ValueError; Jacobian composition outside the snap branch (the full clause is refuted at half-turns: known finding jacobian/composition/snap-branch). 'Jacobian = derivative' is measured against central differences only. Tie: Float correspondence incl. near-0/near-pi sweeps, near-pi rotations about axes with tiny components, all 26 lattice half-turns.",
-        "note": COMMON_NOTE + "np.linalg.svd projection is a parameter (NumPy's u@vt is fed to the model, residual checked); Euler's rotation theorem (every proper rotation is rot(k,theta)) is not formalised - inverse theorems are stated on rot(k,theta); libm sin/cos/acos in the Float run are not verified.",
+        "text": "46 + 22 theorems: algebraic cores over any field (R^T R = R R^T = I, det = 1, axis fixed, right-handed turn, J_fwd J_inv = I3 via sympy certificates); over R for the actual model functions: forward is a proper rotation for every r with the stated axis/angle, identity at 0 and within eps under the theta<eps shortcut; inverse returns exactly theta*k for 0<theta<pi with sin theta >= 1e-5, both round trips, half-turns about every axis give +-pi*k mapping back to R, length <= pi in every branch; the 2.5e-5 snap bound proved in full (near 0: s+s^2; near pi: 2.5 sin theta, using the repaired symmetric-part sign tests, which are regenerated from the source and tied by gen_sign_tests); dispatch and ValueError; Jacobian composition outside the snap branch (the full clause is refuted at half-turns: known finding jacobian/composition/snap-branch). 'Jacobian = derivative' is proved (jacobian_is_derivative_holds: all 27 partial derivatives as HasDerivAt, plus the directional form) and still measured against central differences on the real code. Euler's rotation theorem is proved (euler_rotation: every M3 with R^T R = I, det = 1 is rot(k,theta), 0<=theta<=pi), so the inverse-conversion theorems hold for every proper rotation (roundtrip_mat_vec_mat_general_holds, inv_length_le_pi_general, snap_bound_general, roundtrip_total_general). Tie: Float correspondence incl. near-0/near-pi sweeps, near-pi rotations about axes with tiny components, all 26 lattice half-turns.",
+        "note": COMMON_NOTE + "np.linalg.svd projection is a parameter (NumPy's u@vt is fed to the model, residual checked); libm sin/cos/acos in the Float run are not verified.",
     },
     "C11": {
         "text": "36 theorems: euler elementary matrices are proper right-handed rotations, euler = product in the listed order, degrees = radians*pi/180 (R); rotation_from_up_and_look raises exactly for zero up / zero look / collinear (exact arithmetic), otherwise a proper rotation with R*up = (0,|up|,0) and R*look in the y-z half-plane with positive z (R); rotation/translation/scale builders: 4x4 with last row 0001, documented action, forward*inverse = inverse*forward = 1, raise logic as an iff; apply w=1/w=0, stack = map; compose [] = 1 and apply (compose ts) = fold for AFFINE matrices; the unrestricted compose-order clause is refuted (witness; known finding compose/order/non-affine). Every literal of these functions is regenerated from the source and tied by ring/rfl. Tie: all 39 axis-order strings x both units every run; exact rationals for affine builders (incl. non-affine matrices for apply/compose), doubles for euler/up-look.",
@@ -123,10 +127,10 @@ CHECKS = {
         "note": COMMON_NOTE + "Plane.from_points normalisation in triangular_prism runs at Float/rational-sqrt; dtype tags observed.",
     },
     "C17": {
-        "text": "26 theorems: Box.from_points is the tight bound (per-axis min/max attained, every input contained) by fold invariant; every accessor, the 8 corners, the six inward face planes and contains regenerated from the source and tied; contains iff all six signed "
+        "text": "26 + 17 theorems: Box.from_points is the tight bound (per-axis min/max attained, every input contained) by fold invariant; every accessor, the 8 corners, the six inward face planes and contains regenerated from the source and tied; contains iff all six signed "
                 "distances >= -atol; negative size -> ValueError; bounding_box None for no vertices; extent returns the true maximum over all pairs, attained by the returned indices (R); percentile = reject(centroid, axis) + c*axis for axes that are not almost-zero "
-                "(partial: known finding for tiny non-zero axes, with a proved witness). Tie: lattice clouds with ties, zero-thickness boxes, percentiles 0..100 with NumPy's percentile value passed as data and re-derived by linear interpolation.",
-        "note": COMMON_NOTE + "np.percentile's interpolation is compared, not proved. A few ulps of rounding at the max faces are allowed in the float stream (atol = 4 ulp of the scale), exact on the lattice stream.",
+                "(partial: known finding for tiny non-zero axes, with a proved witness); np.percentile's default linear method is modelled (percentileValue) and proved to be the order statistic: error iff empty or q outside [0,100], between min and max, q=0/100 give min/max, q=100k/(n-1) gives the k-th sorted value, monotone in q, invariant under permutation; percentile_with_numpy_value composes the two. Tie: lattice clouds with ties, zero-thickness boxes, percentiles 0..100 with NumPy's percentile value passed as data and re-derived by linear interpolation.",
+        "note": COMMON_NOTE + "np.percentile itself is external: its return value is compared with the model's percentileValue on every case. A few ulps of rounding at the max faces are allowed in the float stream (atol = 4 ulp of the scale), exact on the lattice stream.",
     },
     "C20": {
         "text": "120 theorems. Shape strictness (proof via translator): every public callable's sequence of shape validations is regenerated from the source as data; for 81 callables a theorem states accepts(generated signature) <-> documented single/stacked forms for "
